@@ -44,7 +44,10 @@ EPs == {"https", "http", "tcp"}
 \* ---- what an endpoint may do with a request (quantifier of the statement) --
 OkBeh        == {"OkBpsv", "OkBpsvEof", "OkMime", "OkMimeLf", "OkMimeSrv"}
 H5xx         == {"H500", "H502", "H503", "H504"}
-H429s        == {"H429", "H429RA"}
+\* 429 without a Retry-After header, and with one whose value is a number of seconds, zero, an HTTP-date,
+\* fractional, with a unit, negative, empty, not ASCII: transient "with/without Retry-After", whatever it says
+H429s        == {"H429", "H429RA", "H429RA0", "H429RA120", "H429RADate", "H429RAFrac", "H429RAUnit", "H429RANeg",
+                 "H429RAEmpty", "H429RABin"}
 H4xx         == {"H400", "H401", "H403", "H404", "H410"}
 MalformedBeh == {"Malformed", "MalformedEmpty", "MalformedRow", "MalformedBin", "MalformedHtml", "MalformedDec", "MalformedSum"}
 ClosedBeh    == {"ClosedMid", "ClosedHead", "ClosedEmpty", "ClosedMidBpsv"}
@@ -90,7 +93,12 @@ Walk(beh, chain, i) ==
 \* with a slack for clock granularity and the different clocks the caches use (Instant, SystemTime, file mtime).
 \* A hit never changes the entry: an answer lives for one TTL from the moment it was fetched.
 Slack == 120
-TtlMs(cfg) == CASE cfg.ttl = "long" -> 3600000 [] cfg.ttl = "mid" -> 600 [] OTHER -> 150
+\* Which time-to-live an answer gets is a matter of its endpoint class: version and background-download
+\* information (they change with every build) live for ribbit_ttl, CDN configuration for cdn_ttl, everything else
+\* (summary, certificates) for config_ttl.  The modes "long" / "mid" / "short" set the three fields to one value;
+\* mode "cls" sets them to 600 / 1800 / 3000 ms.
+TtlOf(cls) == CASE cls \in {"versions", "bgdl"} -> 600 [] cls = "cdns" -> 1800 [] OTHER -> 3000
+TtlMs(cfg) == CASE cfg.ttl = "long" -> 3600000 [] cfg.ttl = "mid" -> 600 [] cfg.ttl = "cls" -> TtlOf(cfg.cls) [] OTHER -> 150
 TickMs == 650          \* `tick`: sleep clearly beyond the short TTL
 Entry(doc, st, gen, lo, hi) == [doc |-> doc, st |-> st, gen |-> gen, lo |-> lo, hi |-> hi]
 NoEntry == Entry("", "none", 0, 0, 0)
